@@ -121,7 +121,7 @@ DebugRejected(fields) == Len(DebugTransparent(fields)) > 1
 (*   kinds of #[default(e)] expressions and what the field must record:    *)
 (***************************************************************************)
 \* Into is applied exactly for a string literal or a path
-NeedsInto(kind) == kind \in {"str", "empty_str", "path", "assoc_path", "into_path", "qself_path", "turbofish_path"}
+NeedsInto(kind) == kind \in {"str", "empty_str", "path", "assoc_path", "into_path", "qself_path", "turbofish_path", "own_assoc_path"}
 FieldDefault(f) ==
     CASE f.dv = "none"       -> "default()"          \* no attribute, or #[default(_)] / #[default]
       [] f.dv = "str"        -> "from_str:abc"       \* #[default("abc")]            -> Into
@@ -130,6 +130,7 @@ FieldDefault(f) ==
       [] f.dv = "assoc_path" -> "from_src:3"         \* #[default(Holder::SRC3)]     -> Into
       [] f.dv = "into_path"  -> "into_srci:8"        \* #[default(SRCI8)]: a type with a hand-written Into<Field> only (no From)
       [] f.dv = "qself_path" -> "from_src:2"         \* #[default(<Holder as HasSrc>::SRC2)]: a path with a qualified self type is a path -> Into
+      [] f.dv = "own_assoc_path" -> "from_src:4"     \* #[default(Pr::RAW4)] on a field of type Pr: a path that starts with the field's own type name is a path -> Into
       [] f.dv = "turbofish_path" -> "from_src:1"     \* #[default(HolderG::<u8>::SRC1)]: generic arguments on a segment: still a path -> Into
       [] f.dv = "call"       -> "call:5"             \* #[default(mk(5))]            as is
       [] f.dv = "block"      -> "call:6"             \* #[default({ mk(6) })]        as is
